@@ -39,8 +39,13 @@ SCORES_INF = SCORES_ANY + [float("inf"), float("-inf")]   # only on key zi, whic
 
 
 class G:
-    def __init__(self, rng):
+    def __init__(self, rng, realtime=False):
         self.r = rng
+        # realtime: the harness runs on the wall clock (Pebble streams; the deterministic clock of
+        # `-tags faketime` is not reliable with Pebble's background goroutines). Then only absolute
+        # deadlines far in the past / future are used and remaining-time replies are not requested,
+        # so that no outcome depends on the instant a command happens to run.
+        self.realtime = realtime
 
     def key(self, fam, wrong=0.12):
         r = self.r
@@ -143,6 +148,8 @@ class G:
             lambda: f"TTL {k}",
             lambda: f"PTTL {k}",
         ]
+        if self.realtime:
+            ops = ops[:-2]
         return "api " + c(ops)()
 
     def expiry(self, now):
@@ -172,6 +179,19 @@ class G:
             lambda: f"Set {self.key('str')} {self.val()} 1",
             lambda: f"SetNX {self.key('str')} {self.val()} 1",
         ]
+        if self.realtime:
+            far = c([1000, 1257894000000, 4102444800000, 4102444800000, 4102444801500])   # 1970, 2009, 2100
+            ops = [
+                lambda: f"ExpireAt {k} {far}",
+                lambda: f"ExpireAtNX {k} {far}",
+                lambda: f"ExpireAtXX {k} {far}",
+                lambda: f"ExpireAtLT {k} {far}",
+                lambda: f"ExpireAtGT {k} {far}",
+                lambda: f"Persist {k}",
+                lambda: f"Set {self.key('str')} {self.val()} 1",
+                lambda: f"SetNX {self.key('str')} {self.val()} 1",
+                lambda: f"Exists {k}",
+            ]
         return "api " + c(ops)()
 
     def lists(self):
@@ -328,10 +348,10 @@ class G:
         return f"{kind} {body}"
 
 
-def stream(rng, families, n, events=None, now0=NOW0, open_line="open a mem", dump_every=25):
+def stream(rng, families, n, events=None, now0=NOW0, open_line="open a mem", dump_every=25, realtime=False):
     """n operations drawn from the given families. `events`: dict name->probability for gc / flush /
     sleep / reopen lines interleaved between commands."""
-    g = G(rng)
+    g = G(rng, realtime)
     ops = [open_line]
     now = now0
     fams = {"str": g.strings, "key": g.keyspace, "list": g.lists, "hash": g.hashes, "set": g.sets, "zset": g.zsets}
